@@ -150,6 +150,9 @@ type c02MRig struct {
 	device  agd.DeviceResult
 
 	statIDs []filter.ID
+	// record / last: see c02MRunKeep.
+	record bool
+	last   string
 	entries []*querylog.Entry
 }
 
@@ -748,8 +751,20 @@ func c02Conforms(c c02MCase, cfg c02Cfg, f c02Final, resp *dns.Msg, up *c02MUpst
 }
 
 func c02MRun(r *vrt.Run, rig *c02MRig, c c02MCase) (fs []vrt.Finding) {
+	return c02MRunKeep(r, rig, c, false)
+}
+
+// c02MRunKeep is c02MRun; with keep == true the result caches keep what the
+// previous query left in them.  With rig.record set, the written message and
+// the credited source are remembered in rig.last.
+func c02MRunKeep(r *vrt.Run, rig *c02MRig, c c02MCase, keep bool) (fs []vrt.Finding) {
 	cfg := c.Cfg
-	rig.prepare(cfg)
+	rig.last = ""
+	if keep {
+		rig.errs.errs = rig.errs.errs[:0]
+	} else {
+		rig.prepare(cfg)
+	}
 	rig.up.cname = c.CNAME
 	rig.up.asked = rig.up.asked[:0]
 	clear(rig.up.resp)
@@ -805,6 +820,9 @@ func c02MRun(r *vrt.Run, rig *c02MRig, c c02MCase) (fs []vrt.Finding) {
 		vrt.Fatalf("%s: rule statistics called %d times", ctxt, len(rig.statIDs))
 	}
 	gotSrc, _ := c02MSrc(cfg, rig.statIDs[0])
+	if rig.record {
+		rig.last = gotSrc + " " + vdns.Canon(resp, true)
+	}
 
 	// What the statement admits.
 	var finals []c02Final
@@ -1019,6 +1037,78 @@ func TestVerifC02MW(t *testing.T) {
 		})
 	}, func(c c02MCase) []vrt.Finding { return c02MRun(r, rig, c) })
 
+	// Tier c, histories: two queries of one requester, the second with the
+	// result caches as the first left them; what is written for the second
+	// must be what is written for it with empty caches (and both must conform
+	// to the statement as in part "mainmw").
+	hSteps := []c02HMStep{}
+	for _, qt := range []uint16{dns.TypeA, dns.TypeAAAA, dns.TypeHTTPS, dns.TypeTXT, dns.TypeMX, dns.TypeCNAME} {
+		hSteps = append(hSteps, c02HMStep{c02Dom, qt})
+	}
+	hSteps = append(hSteps, c02HMStep{c02Sub, dns.TypeA}, c02HMStep{c02Sub, dns.TypeTXT})
+	hModes := vrt.Pick(r, []int{mNullIP, mNXDOMAIN}, []int{mNullIP, mCustomV4, mCustomV46, mNXDOMAIN, mREFUSED})
+	r.Bound("mw_history_steps", len(hSteps))
+	vrt.Part(r, "mainmw-history", func(emit func(c02HMCase)) {
+		c02ReqAssignments(kinds, 1, func(req [nSlots]int) {
+			vrt.Odometer([]int{3, 3, 3, 2}, func(sf []int) {
+				cfg := c02Cfg{Req: req, Flip: true, SS: []int{0, ssGen | ssYT}[sf[3]]}
+				for i := 0; i < nHash; i++ {
+					cfg.Hash[i] = sf[i]
+				}
+				if cfg.Hash == ([nHash]int{}) && !thorough {
+					return
+				}
+				for _, m := range hModes {
+					for _, sw := range []int{swOn, swAnonymous} {
+						if sw == swAnonymous && (req[sCustom] != kNone || m != hModes[0]) {
+							continue
+						}
+						for a := range hSteps {
+							for b := range hSteps {
+								emit(c02HMCase{Cfg: cfg, Mode: m, TTL: 10, Switch: sw, Steps: [2]c02HMStep{hSteps[a], hSteps[b]}})
+							}
+						}
+					}
+				}
+			})
+		})
+	}, func(c c02HMCase) (fs []vrt.Finding) {
+		rig.record = true
+		defer func() { rig.record = false }()
+		mk := func(st c02HMStep) c02MCase {
+			return c02MCase{Cfg: c.Cfg, Host: st.Host, QType: st.QType, Switch: c.Switch, Mode: c.Mode, TTL: c.TTL}
+		}
+		fs = append(fs, c02MRunKeep(r, rig, mk(c.Steps[0]), false)...)
+		first := rig.last
+		fs = append(fs, c02MRunKeep(r, rig, mk(c.Steps[1]), true)...)
+		got := rig.last
+		fs = append(fs, c02MRunKeep(r, rig, mk(c.Steps[1]), false)...)
+		want := rig.last
+		if got != want && got != "" && want != "" {
+			fs = append(fs, vrt.F("mainmw-history/answer-differs-from-fresh-filters",
+				"requester{%s mode=%s ttl=%d} config %s: %s %s asked after %s %s (written: %s) is answered {%s}; with empty result caches it is answered {%s}",
+				c02SwitchName[c.Switch], c02ModeName[c.Mode], c.TTL, c.Cfg, dns.Type(c.Steps[1].QType), c.Steps[1].Host,
+				dns.Type(c.Steps[0].QType), c.Steps[0].Host, first, got, want)...)
+		}
+
+		return fs
+	})
+
 	r.Finish()
 	os.Exit(0)
+}
+
+// c02HMStep is one query of a middleware history.
+type c02HMStep struct {
+	Host  string `json:"host"`
+	QType uint16 `json:"qtype"`
+}
+
+// c02HMCase is a history of two queries of one requester.
+type c02HMCase struct {
+	Cfg    c02Cfg       `json:"cfg"`
+	Mode   int          `json:"mode"`
+	TTL    int          `json:"ttl"`
+	Switch int          `json:"switch"`
+	Steps  [2]c02HMStep `json:"steps"`
 }
